@@ -56,6 +56,7 @@ type sysEnv struct {
 	store *countingStorage // nil when the System creates its storage lazily itself
 	cr    *cron.Cron
 	ttl   time.Duration
+	check bool // SystemConfig.CheckExistence
 }
 
 func parseTTL(x interface{}) time.Duration {
@@ -103,7 +104,7 @@ func newSysEnv(c map[string]interface{}, inject bool) (*sysEnv, error) {
 	if err != nil {
 		return nil, err
 	}
-	env := &sysEnv{s: s, cr: cr, ttl: cont.LocationTTL}
+	env := &sysEnv{s: s, cr: cr, ttl: cont.LocationTTL, check: conf.CheckExistence}
 	if inject {
 		mem, _ := core.NewMemStorage(ctx)
 		cs := &countingStorage{Storage: mem, loads: map[string]int{}, gate: map[string]chan struct{}{}}
@@ -456,7 +457,7 @@ func init() {
 	})
 
 	// c17.proto: the exported cache protocol driven step by step from one goroutine: any interleaving of requests at
-	// the granularity Open / Location call / Release.
+	// the granularity Open / Location call / Release (any number of holders of one name at a time).
 	register("c17.proto", func(c map[string]interface{}) interface{} {
 		e, err := newSysEnv(c, true)
 		if err != nil {
@@ -485,10 +486,14 @@ func init() {
 			now := time.Now()
 			switch t {
 			case "open":
+				// as System.findLocation does it: the check is asked for only when the System checks existence
 				check, _ := st["check"].(bool)
-				loc, err := cl.Open(newCtx(), e.s, name, check)
+				loc, err := cl.Open(newCtx(), e.s, name, check && e.check)
 				if err != nil {
 					r = errR(err)
+					// every Open is paired with a Release (that is how the System methods use the cache): the
+					// handle stays, without a location, until its release step
+					handles[h] = &held{nil, name}
 				} else {
 					if _, ok := ptrs[loc]; !ok {
 						ptrs[loc] = len(ptrs)
@@ -498,7 +503,7 @@ func init() {
 				}
 			case "op":
 				hd := handles[h]
-				if hd == nil {
+				if hd == nil || hd.loc == nil {
 					r = errS("nohandle")
 					break
 				}
@@ -535,9 +540,10 @@ func init() {
 		return map[string]interface{}{"outs": outs}
 	})
 
-	// c17.window: forced schedule for the Open window. Goroutine 0 is stopped at the log call at the top of
-	// CachedLocation.Get (after Open has unlocked the table, before the entry lock is taken); goroutine 1 then runs a
-	// whole request for the same location; goroutine 0 resumes. Reports loads and what a later request sees.
+	// c17.window: forced schedule for the (former) Open window. Goroutine 0 is stopped at the log call at the top of
+	// CachedLocation.get (Open has unlocked the table; the entry must be locked by then); goroutine 1 then issues a
+	// whole request for the same location - it has to wait - and goroutine 0 resumes. Reports loads and what a later
+	// request sees.
 	register("c17.window", func(c map[string]interface{}) interface{} {
 		e, err := newSysEnv(c, true)
 		if err != nil {
@@ -642,6 +648,7 @@ func init() {
 			close(start)
 		}
 		wg.Wait()
+		overlapLoads := e.store.count(name) // loads while the N requests were in flight (the request below may load again)
 		acked := 0
 		for _, r := range res {
 			if _, ok := r["ok"]; ok {
@@ -653,7 +660,7 @@ func init() {
 		if l, ok := after["ok"].([]interface{}); ok {
 			visible = len(l)
 		}
-		return map[string]interface{}{"n": n, "acked": acked, "visible": visible, "loads": e.store.count(name),
+		return map[string]interface{}{"n": n, "acked": acked, "visible": visible, "loads": e.store.count(name), "overlapLoads": overlapLoads,
 			"stored": len(e.storeDump(name).(map[string]interface{}))}
 	})
 }
